@@ -102,7 +102,8 @@ Theorem C02_handles_traced :
 Proof. exact handles_traced. Qed.
 Print Assumptions C02_handles_traced.
 
-Theorem C02_traced_handles_known : forall s, TInv s -> Forall (known s) (trace s).
+(* every traced handle is the Document or an element the sink created *)
+Theorem C02_traced_handles_known : forall s, TInv s -> forall h, In h (trace s) -> h = 0 \/ known s h.
 Proof. exact traced_handles_known. Qed.
 Print Assumptions C02_traced_handles_known.
 
